@@ -162,8 +162,8 @@ namespace Givaro {
              typename std::enable_if<! (IS_SINT(TElem)), int>::type = 0>
     inline TElem& GenericAdd(TElem& r, const TElem& a, const TElem& b, const RElem& _p)
     {
-        r = a + b;
-        return (r >= Caster<TElem>(_p) || r < a) ? r -= Caster<TElem>(_p) : r;
+        const TElem s = Caster<TElem>(a + b); // r may be the same object as a
+        return r = (s >= Caster<TElem>(_p) || s < a) ? Caster<TElem>(s - Caster<TElem>(_p)) : s;
     }
 
         // Overflowing signed integrals is undefined
@@ -239,8 +239,8 @@ namespace Givaro {
              typename std::enable_if<! (IS_SINT(TElem)), int>::type = 0>
     inline TElem& GenericAddIN(TElem& r, const TElem& a, const RElem& _p)
     {
-        r += a;
-        return r = (r >= Caster<TElem>(_p) || r < a) ? r - Caster<TElem>(_p) : r;
+        const TElem s = Caster<TElem>(r + a); // r may be the same object as a
+        return r = (s >= Caster<TElem>(_p) || s < a) ? Caster<TElem>(s - Caster<TElem>(_p)) : s;
     }
 
         // Addin using unsigned overflows, see comments for add
